@@ -57,7 +57,7 @@ def f64_bits(v):
 
 def native_lottery(rows):
     """rows: (phi_f float, ev int < 2^512, stake, total) -> ['true'|'false'|'panic']"""
-    cdir = os.path.join(core.VERIF, "replay", "lottery")
+    cdir = os.path.join(core.REPLAY_CRATES, "lottery")
     import shutil
     shutil.copyfile(os.path.join(core.REPO, "Cargo.lock"), os.path.join(cdir, "Cargo.lock"))
     env = dict(os.environ)
